@@ -17,7 +17,26 @@ const T0: u64 = 1_700_000_000_000_000_000;
 const MS: u64 = 1_000_000;
 /// one loop turn to notice, one to reschedule, plus rounding: fixed before looking at results
 pub const SLACK: u64 = 2 * 10 * MS + MS;
-const HORIZON: u64 = 5_000 * MS;
+const HORIZON: u64 = 6_000 * MS;
+
+thread_local! {
+    /// how many of the next selector polls fail the way an interrupted epoll_wait does
+    static POLL_FAULTS: std::cell::Cell<u32> = const { std::cell::Cell::new(0) };
+}
+
+fn choice(site: &'static str, _n: usize) -> usize {
+    if site != "select:poll" {
+        return 0;
+    }
+    POLL_FAULTS.with(|f| {
+        if f.get() > 0 {
+            f.set(f.get() - 1);
+            1
+        } else {
+            0
+        }
+    })
+}
 
 #[derive(Clone, Debug)]
 pub struct Case {
@@ -32,11 +51,13 @@ pub struct Case {
     /// timed out (its registration and token stay behind); this long into the timed call the socket
     /// becomes readable
     stale_ready_at: Option<u64>,
+    /// the first N selector polls made during the call are interrupted (EINTR)
+    interrupted_polls: u32,
 }
 
 impl Case {
     fn to_json(&self) -> Value {
-        json!({"call": self.call, "requested_ns": self.req, "raw": [self.raw.0.to_string(), self.raw.1.to_string()], "invalid": self.invalid, "caller": if self.coroutine { "coroutine" } else { "thread" }, "earlier_socket_wait_becomes_ready_at_ns": self.stale_ready_at})
+        json!({"call": self.call, "requested_ns": self.req, "raw": [self.raw.0.to_string(), self.raw.1.to_string()], "invalid": self.invalid, "caller": if self.coroutine { "coroutine" } else { "thread" }, "earlier_socket_wait_becomes_ready_at_ns": self.stale_ready_at, "interrupted_polls": self.interrupted_polls})
     }
     fn from_json(v: &Value) -> Option<Case> {
         Some(Case {
@@ -46,6 +67,7 @@ impl Case {
             invalid: v.get("invalid")?.as_bool()?,
             coroutine: v.get("caller")?.as_str()? == "coroutine",
             stale_ready_at: v.get("earlier_socket_wait_becomes_ready_at_ns").and_then(Value::as_u64),
+            interrupted_polls: v.get("interrupted_polls").and_then(Value::as_u64).unwrap_or(0) as u32,
         })
     }
 }
@@ -155,6 +177,7 @@ pub fn exec(c: &Case, em: &mut Emitter) {
         em.emit(json!({"t":"native","ret":nr,"errno":ne}));
     }
     open_coroutine_core::verif::clock_enable(T0);
+    open_coroutine_core::verif::set_choice_hook(Some(choice));
     let mut lp = SyncLoop::new("c14-loop", 128 * 1024, 0, 4, 0).expect("loop");
     lp.enter();
     em.emit(json!({"t":"begin"}));
@@ -181,6 +204,7 @@ pub fn exec(c: &Case, em: &mut Emitter) {
                     let r = sc::read(None, rfd, b.as_mut_ptr().cast(), 1);
                     assert_eq!(-1, r, "the preparing read must time out");
                 }
+                POLL_FAULTS.with(|f| f.set(c2.interrupted_polls));
                 let t0 = now();
                 *st2.lock().unwrap() = Some(t0);
                 let (r, e, x) = do_call(&c2);
@@ -213,6 +237,7 @@ pub fn exec(c: &Case, em: &mut Emitter) {
     } else {
         // an infinite wait on the calling thread can not be cut short from outside: the horizon is
         // enforced by the virtual clock saturating (see judge) and by the runner's hang detection
+        POLL_FAULTS.with(|f| f.set(c.interrupted_polls));
         let t0 = now();
         let (r, e, x) = do_call(c);
         em.emit(json!({"t":"returned","elapsed_ns": now() - t0, "ret": r, "errno": e, "extra": x, "loop_turns": 0}));
@@ -226,19 +251,26 @@ pub fn cases(tier: &str) -> Vec<Case> {
     let thorough = tier == "thorough";
     for coroutine in [true, false] {
         let mut add = |call: &str, req: Option<u64>, raw: (i64, i64), invalid: bool| {
-            v.push(Case { call: call.into(), req, raw, invalid, coroutine, stale_ready_at: None });
+            v.push(Case { call: call.into(), req, raw, invalid, coroutine, stale_ready_at: None, interrupted_polls: 0 });
             if let (true, false, Some(r)) = (coroutine, invalid, req) {
                 if r >= 100 * MS {
                     for at in [r / 4, r / 2 + 3 * MS] {
-                        v.push(Case { call: call.into(), req, raw, invalid, coroutine, stale_ready_at: Some(at) });
+                        v.push(Case { call: call.into(), req, raw, invalid, coroutine, stale_ready_at: Some(at), interrupted_polls: 0 });
                     }
+                }
+            }
+            // signals interrupt the selector while the call waits
+            if let (false, Some(r)) = (invalid, req) {
+                if r >= 15 * MS && r <= 1000 * MS {
+                    v.push(Case { call: call.into(), req, raw, invalid, coroutine, stale_ready_at: None, interrupted_polls: 4 });
                 }
             }
         };
         for s in [0i64, 1, 2] {
             add("sleep", Some(s as u64 * 1000 * MS), (s, 0), false);
         }
-        let us: Vec<i64> = if thorough { vec![0, 1, 999, 1000, 9_999, 10_000, 10_001, 15_000, 100_000, 1_000_000, 2_500_000, 4_000_000] } else { vec![0, 1, 999, 1000, 9_999, 10_000, 10_001, 15_000, 100_000, 1_000_000, 2_500_000] };
+        // 4_294_967 us is the last value whose nanoseconds fit 32 bits
+        let us: Vec<i64> = if thorough { vec![0, 1, 999, 1000, 9_999, 10_000, 10_001, 15_000, 100_000, 1_000_000, 2_500_000, 4_000_000, 4_294_967, 4_294_968, 4_300_000] } else { vec![0, 1, 999, 1000, 9_999, 10_000, 10_001, 15_000, 100_000, 1_000_000, 2_500_000, 4_294_968] };
         for u in &us {
             add("usleep", Some(*u as u64 * 1000), (*u, 0), false);
         }
@@ -322,6 +354,9 @@ pub fn judge(c: &Case, res: &ChildResult, rep: &mut Report) {
                 rep.violation("c14.timed/return-value-as-native/nanosleep-rmtp", format!("{} ({who}): remaining time reported as {}", c.to_json(), r["extra"]["rmtp"]), replay());
             }
             rep.witness(if c.coroutine { "coroutine_callers" } else { "thread_callers" });
+            if c.interrupted_polls > 0 {
+                rep.witness("calls_with_interrupted_polls");
+            }
             if c.stale_ready_at.is_some() {
                 if r["peer_written"] == json!(true) {
                     rep.witness("stale_socket_became_ready_during_the_wait");
@@ -338,8 +373,9 @@ pub fn run(tier: &str, rep: &mut Report) {
     rep.bounds = json!({"calls":["sleep","usleep","nanosleep","poll","select","pthread_cond_timedwait"],"callers":["coroutine on a synchronous loop","plain thread"],
         "timeouts":"0, smallest unit, 999us, 1ms, 10ms-1, 10ms, 10ms+1, 15ms, 100ms, 1s, 2.5s (per call's unit); infinite for poll/select",
         "stale_readiness": "coroutine callers, waits >= 100 ms: an earlier hooked read of the same coroutine timed out and its socket becomes readable a quarter / half way into the timed call",
+        "interrupted_polls": "waits of 15 ms .. 1 s also run with the first 4 selector polls failing with EINTR",
         "slack_ns": SLACK, "horizon_ns": HORIZON, "cases": cs.len()});
-    rep.require(&["coroutine_callers", "thread_callers", "invalid_arguments_compared_with_native", "infinite_waits_checked", "stale_socket_became_ready_during_the_wait"]);
+    rep.require(&["coroutine_callers", "thread_callers", "invalid_arguments_compared_with_native", "infinite_waits_checked", "stale_socket_became_ready_during_the_wait", "calls_with_interrupted_polls"]);
     for c in cs.iter().step_by((cs.len() / 4).max(1)).take(4) {
         rep.sample(c.to_json());
     }
